@@ -121,3 +121,48 @@ package metrics
 //@   requires collectorWF(pm.collector)
 //@   modifies pm.collector.counters[*], pm.collector.histograms[*], pm.collector.gauges[*], pm.collector.timers[*], heap(Counter), heap(Gauge), heap(Histogram), heap(int64)
 //@   ensures[C18.dbop-accounted] pm.enabled ==> calls("(*metrics.Counter).Inc") == 1 && calls("(*metrics.Histogram).Observe") == 1
+
+// C11 lock discipline. The collector's four registries are assigned by the constructor only; their
+// contents are read / updated under mu. A histogram's running state is touched under its mutex.
+// Counters and gauges hold a single word that is accessed through sync/atomic only (static
+// obligation atomic-only).
+//@ guarded-contents Collector mu counters gauges histograms timers
+//@ guarded Histogram mu counts sum count
+//@ func (*Counter).Inc
+//@   opt concurrent yes
+//@ func (*Counter).Add
+//@   opt concurrent yes
+//@ func (*Counter).Value
+//@   opt concurrent yes
+//@ func (*Gauge).Set
+//@   modifies g.*
+//@   opt concurrent yes
+//@ func (*Gauge).Value
+//@   opt concurrent yes
+//@ func (*Histogram).Observe
+//@   opt concurrent yes
+//@ func (*Histogram).Count
+//@   opt concurrent yes
+//@ func (*Histogram).Sum
+//@   opt concurrent yes
+//@ func (*Histogram).Mean
+//@   opt concurrent yes
+//@ func (*Histogram).Percentile
+//@   opt concurrent yes
+//@ func (*Collector).Counter
+//@   opt concurrent yes
+//@ func (*Collector).Histogram
+//@   opt concurrent yes
+//@ func (*Collector).Gauge
+//@   requires mc.gauges != nil
+//@   modifies mc.gauges[*]
+//@   opt concurrent yes
+//@ pure func timersWF(mc *Collector) bool = mc.timers != nil && (forall k string :: (k in mc.timers) ==> mc.timers[k] != nil && mc.timers[k].histogram != nil && wfHistogram(mc.timers[k].histogram))
+//@ func (*Collector).Timer
+//@   requires timersWF(mc)
+//@   modifies mc.timers[*]
+//@   opt concurrent yes
+//@   ensures[C18.timer-registered] result != nil && result.histogram != nil && wfHistogram(result.histogram) && timersWF(mc)
+//@   ensures[C18.timer-others] forall k string :: old(k in mc.timers) ==> (k in mc.timers) && mc.timers[k] == old(mc.timers[k])
+//@ func (*PerformanceMonitor).RecordSearchOperation
+//@   opt concurrent yes
